@@ -303,6 +303,15 @@ def run_shard(ctx, spec):
     for ei, ev in enumerate(mine):
         customary = ev in CUSTOMARY
         dc, d = mon.dclass(ev) if mon.kind(ev) == 'timed' else (None, None)
+        if mon.kind(ev) == 'field' and ev.upper() in RECORDS['m']:
+            # entries within 12 thousandths of 120 % of the listed record: the mark that is RETURNED must respect the limit
+            for g in ('m', 'f', 'all', 'M', 'F'):
+                lim = int(round(listed_record(ev, g) * 1200))
+                for off in range(-12, 13):
+                    n = lim + off
+                    for t in ('%d.%03d' % divmod(n, 1000), '%d.%02d' % (n // 1000, n % 1000 // 10), '%d,%03d' % divmod(n, 1000)):
+                        attach.call(f, ev, t, gender=g, errorKlass=CustomError)
+                        ctx.count('eval.entries-at-the-record-limit')
         if d and (customary or ei % 4 == 0):
             for t in limit_texts(int(d)):
                 for p in (None, 0, 1, 2, 3):
